@@ -166,7 +166,7 @@ def t1_bounds(rule, tier):
     if rule == 1:
         return (12, 10)
     # thorough covers every Spanish/French word completely (longest: 12 bytes decomposed)
-    return (8, 6) if tier == "quick" else (14, 12)
+    return (10, 8) if tier == "quick" else (14, 12)
 
 
 def g_t1(tier, cfgs=("s",), rules=(0, 1, 2, 3)):
